@@ -20,6 +20,8 @@ from __future__ import annotations
 
 import copy
 import itertools
+import os
+import pathlib
 
 from harness import common
 
@@ -404,11 +406,14 @@ def _md_inputs():
 
 
 def set_display_probe(cx: Ctx):
-    """-> rows [(is_file, parent codes, md codes, result codes, result is the inherited list object)]"""
-    sf = cx.sf
-    ent = cx.by_pair.get(("FortranVariable", "FortranModule")) or cx.by_class["FortranVariable"]
-    fil = cx.by_class["FortranSourceFile"]
+    """-> (rows [(is_file, parent codes, md codes, result codes, result is the inherited list object)],
+           subjects [(class, meta.proc_internals)] the rows were measured on)
+
+    The rows are the *set* of outcomes over one real object of every class of the probe project x
+    `meta.proc_internals` off / on: `display` and `proc_internals` are independent options, so a class or a value
+    of `proc_internals` that makes `_set_display` answer differently adds rows (which the model cannot match)."""
     rows = set()
+    subjects = []
 
     class Par:
         def __init__(self, display):
@@ -417,36 +422,200 @@ def set_display_probe(cx: Ctx):
         def __bool__(self):
             return True
 
-    for is_file in (False, True):
-        inst = fil if is_file else ent
-        for parent in ([], ["public"], ["private", "protected"]):
-            for md in _md_inputs():
-                for variant in (0, 1):
-                    words = [w.upper() if (variant and i % 2 == 0) else (w.capitalize() if variant else w)
-                             for i, w in enumerate(md)]
-                    o = copy.copy(inst)
-                    o.meta = copy.copy(inst.meta)
-                    o.meta.display = list(words)
-                    inherited = list(parent)
-                    if is_file:
-                        o.parent = None
-                        o.display = inherited
+    for cname in sorted(cx.by_class):
+        inst = cx.by_class[cname]
+        if not hasattr(inst, "_set_display") or not hasattr(inst, "meta"):
+            continue
+        is_file = isinstance(inst, cx.sf.FortranSourceFile)
+        for pi in (False, True):
+            subjects.append((cname, pi))
+            for parent in ([], ["public"], ["private", "protected"]):
+                for md in _md_inputs():
+                    for variant in (0, 1):
+                        words = [w.upper() if (variant and i % 2 == 0) else (w.capitalize() if variant else w)
+                                 for i, w in enumerate(md)]
+                        o = copy.copy(inst)
+                        o.meta = copy.copy(inst.meta)
+                        o.meta.display = list(words)
+                        o.meta.proc_internals = pi
+                        inherited = list(parent)
+                        if is_file:
+                            o.parent = None
+                            o.display = inherited
+                        else:
+                            o.parent = Par(inherited)
+                            o.display = ["stale"]
+                        try:
+                            ret = o._set_display()
+                        except Exception as ex:  # noqa: BLE001 - recorded, the theorem pins the list to []
+                            cx.anomalies.append(f"_set_display raised {type(ex).__name__} on {cname}")
+                            continue
+                        if ret is not None:
+                            cx.anomalies.append(f"_set_display returned {ret!r}")
+                        if inherited != list(parent):
+                            cx.anomalies.append(f"_set_display changed the inherited list in place: {parent} / {words}")
+                        if o.meta.display != list(words):
+                            cx.anomalies.append(f"_set_display changed meta.display in place: {words}")
+                        if o.meta.proc_internals is not pi:
+                            cx.anomalies.append("_set_display changed meta.proc_internals")
+                        if not isinstance(o.display, list):
+                            cx.anomalies.append(f"_set_display: display is {type(o.display).__name__}")
+                            continue
+                        rows.add((is_file, tuple(code(w) for w in parent), tuple(code(w) for w in md),
+                                  tuple(code(w) for w in o.display), o.display is inherited))
+    return sorted(rows), subjects
+
+
+def template_env():
+    """FORD's own Jinja2 environment (filters, tests, globals of `ford.output`) with the loader
+    `Documentation.__init__` would install, as an overlay: the shared environment is left alone"""
+    import jinja2
+
+    import ford.output as out
+
+    return out.env.overlay(loader=jinja2.FileSystemLoader([str(out.loc / "templates")]))
+
+
+def name_cell(html, tb_name):
+    """what `bound_declaration` printed as the name of the binding: -> (kind, href | None)"""
+    from bs4 import BeautifulSoup
+
+    strong = BeautifulSoup(html, "html.parser").find("strong")
+    if strong is None:
+        return "no-name", None
+    a = strong.find("a")
+    if a is None:
+        return ("name" if strong.get_text().strip() == tb_name else "other-text"), None
+    return "link", a.get("href")
+
+
+def bound_decl_probe(cx: Ctx):
+    """The real macros `type_summary` (site `summary`: the card of a type on the page of its module / program /
+    procedure / block data unit) and `bound_info` (site `info`: the type's own page) of `macros.html`, rendered by
+    FORD's Jinja2 environment on the real, correlated types of the probe project (`pt1` extends `pt0` and inherits
+    `b0pub`; `b1` is its own), for every combination of `tb.visible`, `visible` of the type that declares the
+    binding, and `external_url` set / absent.
+    -> rows [(site, inherited, tb visible, declaring type visible, external, name | link:declaring-type-page |
+              link:carrier-page | link:external | link:other)]"""
+    proj = cx.parse()
+    with common.quiet():
+        proj.correlate()
+    types = {t.name: t for f in proj.files for m in f.modules for t in m.types}
+    carrier, base = types["pt1"], types["pt0"]
+    env = template_env()
+    out_dir = pathlib.Path("/ford-verif-probe-out")  # never touched: URLs are only compared
+    page_url = out_dir / "module" / "pm.html"
+    own_page = out_dir / "type" / "pt1.html"
+    rows = []
+    for site in ("summary", "info"):
+        mod = env.get_template("macros.html").make_module({"page_url": page_url if site == "summary" else own_page})
+        for inherited in (False, True):
+            name = "b0pub" if inherited else "b1"
+            orig = next(b for b in carrier.boundprocs if b.name == name)
+            if (orig.parent is base) is not inherited:
+                cx.anomalies.append(f"bound_decl_probe: {name} is declared in {orig.parent.name}")
+            for tbv, dv, ext in itertools.product((True, False), repeat=3):
+                t = copy.copy(carrier)
+                decl = copy.copy(base) if inherited else t
+                decl.visible = dv
+                if inherited:
+                    t.visible = True
+                    t.extends = decl
+                tb = copy.copy(orig)
+                tb.visible = tbv
+                tb.parent = decl
+                t.base_url = decl.base_url = tb.base_url = out_dir
+                if ext:
+                    tb.external_url = "http://external.invalid/type/x.html#boundprocedure-" + name
+                t.boundprocs = [tb]
+                t.variables, t.finalprocs, t.constructor = [], [], None
+                try:
+                    html = str(mod.type_summary(t)) if site == "summary" else str(mod.bound_info(tb))
+                except Exception as ex:  # noqa: BLE001
+                    cx.anomalies.append(f"bound_decl_probe: rendering raised {type(ex).__name__}: {ex}")
+                    continue
+                from bs4 import BeautifulSoup
+
+                # the cell of the binding (an entity that is not a link goes through `relurl` as a path: the
+                # name is then the last component)
+                cells = [st for st in BeautifulSoup(html, "html.parser").find_all("strong")
+                         if st.get_text().strip().split("/")[-1] == name]
+                if len(cells) != 1:
+                    cx.anomalies.append(f"bound_decl_probe: {len(cells)} name cells for {name} ({site})")
+                    continue
+                a = cells[0].find("a")
+                if a is None:
+                    out = "name"
+                else:
+                    href = a.get("href") or ""
+                    if href.startswith("http"):
+                        out = "link:external"
                     else:
-                        o.parent = Par(inherited)
-                        o.display = ["stale"]
-                    ret = o._set_display()
-                    if ret is not None:
-                        cx.anomalies.append(f"_set_display returned {ret!r}")
-                    if inherited != list(parent):
-                        cx.anomalies.append(f"_set_display changed the inherited list in place: {parent} / {words}")
-                    if o.meta.display != list(words):
-                        cx.anomalies.append(f"_set_display changed meta.display in place: {words}")
-                    if not isinstance(o.display, list):
-                        cx.anomalies.append(f"_set_display: display is {type(o.display).__name__}")
-                        continue
-                    rows.add((is_file, tuple(code(w) for w in parent), tuple(code(w) for w in md),
-                              tuple(code(w) for w in o.display), o.display is inherited))
-    return sorted(rows)
+                        here = "module" if site == "summary" else "type"
+                        tgt = os.path.normpath(os.path.join(here, href.split("#")[0]))
+                        out = ("link:declaring-type-page" if tgt == os.path.normpath(decl.get_url()) else
+                               "link:carrier-page" if tgt == os.path.normpath(t.get_url()) else "link:other")
+                rows.append((site, inherited, tbv, dv, ext, out))
+    return rows
+
+
+def _url(o):
+    try:
+        return o.get_url()
+    except Exception:  # noqa: BLE001
+        return None
+
+
+def graph_node_probe(cx: Ctx):
+    """`ford.graphs.BaseNode.__init__` (the constructor every graph node class runs first) on copies of the real objects
+    of the probe project that have a URL - one per class - and on one without (an internal procedure), for `visible`
+    true / false / absent x `visible` of the parent true / false / absent.
+    -> rows [(class, is a type-bound procedure, has a URL, visible, parent visible, the node carries a URL attribute,
+              that URL is parent_dir + get_url())]"""
+    import ford.graphs as gr
+
+    gd = gr.GraphData("../", False, False)
+    rows = []
+    subjects = []
+    for cname in sorted(cx.by_class):
+        cands = [o for o in cx.objects if type(o).__name__ == cname and hasattr(o, "get_url") and hasattr(o, "ident")]
+        if not cands:
+            continue
+        with_url = [o for o in cands if _url(o)]
+        without = [o for o in cands if not _url(o)]
+        subjects += with_url[:1] + without[:1]
+    for inst in subjects:
+        url = _url(inst)
+        if getattr(inst, "parent", None) is None and type(inst).__name__ != "FortranSourceFile":
+            continue
+        for vis in ("true", "false", "absent"):
+            for pvis in ("true", "false", "absent"):
+                o = copy.copy(inst)
+                vars(o).pop("external_url", None)
+                if o.parent is not None:
+                    o.parent = copy.copy(inst.parent)
+                    if pvis == "absent":
+                        vars(o.parent).pop("visible", None)
+                    else:
+                        o.parent.visible = pvis == "true"
+                elif pvis != "absent":
+                    continue
+                if vis == "absent":
+                    vars(o).pop("visible", None)
+                else:
+                    o.visible = vis == "true"
+                if hasattr(type(o), "visible") or (o.parent is not None and hasattr(type(o.parent), "visible")):
+                    cx.anomalies.append(f"graph_node_probe: {type(o).__name__} has a class-level `visible`")
+                try:
+                    node = gr.BaseNode(o, gd)
+                except Exception as ex:  # noqa: BLE001
+                    cx.anomalies.append(f"graph_node_probe: BaseNode({type(o).__name__}) raised {type(ex).__name__}: {ex}")
+                    continue
+                got = node.attribs.get("URL")
+                own = _url(o)  # (the copy has an identifier of its own)
+                rows.append((type(inst).__name__, isinstance(o, cx.sf.FortranBoundProcedure), bool(url), vis, pvis,
+                             got is not None, got == ("../" + own if own else None)))
+    return sorted(set(rows))
 
 
 def should_display_probe(cx: Ctx):
